@@ -4,6 +4,7 @@ Property theorems only (statements are fixed; helper lemmas live in `Lemmas/Attr
 -/
 import StunVerif.Spec.Attr
 import StunVerif.Lemmas.Attr
+import StunVerif.Gen.Attr
 namespace StunVerif.C08
 open StunVerif
 
@@ -60,6 +61,12 @@ theorem reencode_exact (k : Kind) (raw : RawAttr) (v : AttrVal) (h : fromRaw k r
     (hk : k ≠ .xorMappedAddress ∧ k ≠ .alternateServer ∧ k ≠ .errorCode) :
     v.toRaw = raw := by
   exact fromRaw_reencode_exact k raw v h hk
+
+/-- tie to the source: the 19 `TYPE` constants, as read from /repo on this run, are the RFC codes of
+    the table (and hence of the model) -/
+theorem src_type_codes :
+    Gen.typeCodes = Kind.all.map Spec.code ∧ Kind.all.map Kind.code = Kind.all.map Spec.code := by
+  decide
 
 /-! Non-vacuity: concrete accepted encodings. -/
 example : fromRaw .errorCode ⟨9, [0, 0, 4, 20, 0x6f, 0x6b]⟩ = .ok (.errorCode 420 [0x6f, 0x6b]) := by
